@@ -11,7 +11,7 @@ S=$(mktemp -d /tmp/seedchk-XXXX)
 rsync -a --exclude .git /repo/ $S/
 DEMO_DIR=$(head -5 $D/demo_test.go | grep -o 'plenc[a-z/]*/\|root\|repo root' | head -1)
 PKG=$(grep -m1 '^package ' $D/demo_test.go | awk '{print $2}')
-case "$PKG" in plenc|plenc_test) SUB=. ;; plenccore|plenccore_test) SUB=plenccore ;; plenccodec|plenccodec_test) SUB=plenccodec ;; null|null_test) SUB=null ;; *) SUB=. ;; esac
+case "$PKG" in plenc|plenc_test) SUB=. ;; plenccore|plenccore_test) SUB=plenccore ;; plenccodec|plenccodec_test) SUB=plenccodec ;; null|null_test) SUB=null ;; main|main_test) SUB=cmd/plenctag ;; *) SUB=. ;; esac
 cp $D/demo_test.go $S/$SUB/zz_seed_demo_test.go
 ( cd $S && go test -vet=off -count=1 -run . ./$SUB > $S/base.log 2>&1 ); BASE=$?
 ( cd $S && patch -p1 -s < $D/patch.diff ) || { echo "patch does not apply"; rm -rf $S; exit 2; }
